@@ -65,8 +65,8 @@ func (r *c08Rec) compact() string {
 		min(r.Nil, 9), r.Pr[0], r.Pr[1], r.Pr[2], b2i(r.ElOK))
 }
 
-// grolFrame returns the innermost frame of the grol module on the current (panicking) stack.
-func grolFrame() string {
+// c08GrolFrame returns the innermost frame of the grol module on the current (panicking) stack.
+func c08GrolFrame() string {
 	pcs := make([]uintptr, 64)
 	n := runtime.Callers(3, pcs)
 	fr := runtime.CallersFrames(pcs[:n])
@@ -95,7 +95,7 @@ func (w *c08Walker) miss(pos string) {
 	}
 }
 
-func isNilNode(n ast.Node) bool {
+func c08IsNilNode(n ast.Node) bool {
 	if n == nil {
 		return true
 	}
@@ -104,7 +104,7 @@ func isNilNode(n ast.Node) bool {
 }
 
 func (w *c08Walker) child(n ast.Node, pos string) {
-	if isNilNode(n) {
+	if c08IsNilNode(n) {
 		w.miss(pos)
 		return
 	}
@@ -139,7 +139,7 @@ func (w *c08Walker) node(n ast.Node, pos string) {
 			w.miss(pos + ".Token")
 		}
 	case *ast.ReturnStatement:
-		if !isNilNode(x.ReturnValue) { // optional
+		if !c08IsNilNode(x.ReturnValue) { // optional
 			w.node(x.ReturnValue, "ReturnStatement.ReturnValue")
 		}
 	case *ast.PrefixExpression:
@@ -150,7 +150,7 @@ func (w *c08Walker) node(n ast.Node, pos string) {
 		}
 	case *ast.InfixExpression:
 		w.child(x.Left, "InfixExpression.Left")
-		if isNilNode(x.Right) {
+		if c08IsNilNode(x.Right) {
 			if x.Token == nil || x.Type() != token.COLON { // `[n:]` is the only legal open right side
 				w.miss("InfixExpression.Right")
 			}
@@ -215,7 +215,7 @@ func c08Run(input string, line bool) (rec c08Rec) {
 			if r := recover(); r != nil {
 				rec.Pan = true
 				rec.PanMsg = fmt.Sprint(r)
-				rec.PanSite = grolFrame()
+				rec.PanSite = c08GrolFrame()
 			}
 		}()
 		p = parser.New(c08Lexer(input, line))
@@ -242,7 +242,7 @@ func c08Run(input string, line bool) (rec c08Rec) {
 		defer func() {
 			if r := recover(); r != nil {
 				rec.ElOK = false
-				rec.ElMsg = fmt.Sprintf("ErrorLine panicked: %v at %s", r, grolFrame())
+				rec.ElMsg = fmt.Sprintf("ErrorLine panicked: %v at %s", r, c08GrolFrame())
 			}
 		}()
 		for _, prev := range []bool{false, true} {
@@ -264,7 +264,7 @@ func c08Run(input string, line bool) (rec c08Rec) {
 					rec.Pr[k] = 0
 					if rec.PrMsg == "" {
 						rec.PrMsg = fmt.Sprint(r)
-						rec.PrSite = grolFrame()
+						rec.PrSite = c08GrolFrame()
 					}
 				}
 			}()
